@@ -67,6 +67,12 @@ func C18(c *core.Ctx) error {
 		add(c18case{c18pkg, "absent", "default", e, ""})
 		add(c18case{c18pkg, "content", "relative", e, ""})
 	}
+	// --config names the target; a MOCKERY_CONFIG left in the shell (naming a file that does not exist, here) does not
+	// redirect an explicit flag
+	for _, t := range []string{"relative", "nested", "absolute"} {
+		add(c18case{c18pkg, "absent", t, "MOCKERY_CONFIG=from_env.yml", ""})
+		add(c18case{c18pkg, "content", t, "MOCKERY_CONFIG=from_env.yml", ""})
+	}
 	for _, n := range names {
 		add(c18case{n, "absent", "default", "", ""})
 	}
